@@ -264,6 +264,13 @@ func runRmJob(fs filesystem.FS, s string, j rmJob) (res rmChildResult) {
 	root := filepath.Join(s, "r")
 	ctx := context.Background()
 	var rerr error
+	goPats := make([]string, len(j.pats))
+	for i, p := range j.pats {
+		goPats[i] = p
+		if p == "_" {
+			goPats[i] = "  " // a blank pattern: to be ignored
+		}
+	}
 	func() {
 		defer func() {
 			if r := recover(); r != nil {
@@ -276,7 +283,7 @@ func runRmJob(fs filesystem.FS, s string, j rmJob) (res rmChildResult) {
 		case "RemoveWithContext":
 			rerr = fs.RemoveWithContext(ctx, root)
 		case "RemoveWithContextAndExclusionPatterns":
-			rerr = fs.RemoveWithContextAndExclusionPatterns(ctx, root, j.pats...)
+			rerr = fs.RemoveWithContextAndExclusionPatterns(ctx, root, goPats...)
 		case "RemoveWithPrivileges":
 			rerr = fs.RemoveWithPrivileges(ctx, root)
 		case "CleanDir":
@@ -284,7 +291,7 @@ func runRmJob(fs filesystem.FS, s string, j rmJob) (res rmChildResult) {
 		case "CleanDirWithContext":
 			rerr = fs.CleanDirWithContext(ctx, root)
 		case "CleanDirWithContextAndExclusionPatterns":
-			rerr = fs.CleanDirWithContextAndExclusionPatterns(ctx, root, j.pats...)
+			rerr = fs.CleanDirWithContextAndExclusionPatterns(ctx, root, goPats...)
 		case "GarbageCollect":
 			time.Sleep(2 * time.Millisecond)
 			rerr = fs.GarbageCollect(root, time.Nanosecond)
@@ -335,7 +342,11 @@ func runRmJob(fs filesystem.FS, s string, j rmJob) (res rmChildResult) {
 			for k := 1; k <= len(parts); k++ {
 				anc := strings.Join(parts[:k], "/")
 				if after[anc] != before[anc] {
-					fail(hx.Failure{Kind: "impl-violates-property", Key: "excluded-entry-or-ancestor-removed", Case: c,
+					key := "excluded-entry-or-ancestor-removed:below-first-level"
+					if len(parts) == 2 {
+						key = "excluded-entry-or-ancestor-removed:first-level"
+					}
+					fail(hx.Failure{Kind: "impl-violates-property", Key: key, Case: c,
 						Expected: anc + before[anc] + " survives (" + p + v + " is excluded)", Observed: fmt.Sprintf("now %q", after[anc])})
 					break outer
 				}
@@ -388,7 +399,7 @@ func rmLinksMain(args []string) {
 	for i := 0; i < n; i++ {
 		j := rmJob{ents: genRmTree(rnd), ep: hx.Pick(rnd, eps)}
 		if strings.Contains(j.ep, "Exclusion") {
-			j.pats = [][]string{nil, {"KX"}, {"KX", "KY"}}[rnd.Intn(3)]
+			j.pats = [][]string{nil, {"KX"}, {"KX", "KY"}, {"", "KX"}, {"KX", "_", "KY"}}[rnd.Intn(5)]
 		}
 		jobs = append(jobs, j)
 	}
